@@ -318,6 +318,10 @@ func grpcReqOf(tag, kind, code string) shot.GrpcReq {
 		r.Call = "target.TargetService.NoSuchMethod"
 	case "badpayload":
 		r.Payload = map[string]any{"no_such_field": 1}
+	case "bad":
+		// a line of the ammo file that cannot be decoded (`continueonerror: true` delivers it as an INVALID ammo): the
+		// placeholder is replaced by garbage once the file is written (runGrpc)
+		r.Call = "__UNDECODABLE_LINE__"
 	default:
 		panic("bad grpc kind " + kind)
 	}
@@ -356,7 +360,11 @@ func runGrpc(m map[string]string) string {
 	}
 	addr, stop := grpcTargetFor(m["reqs"])
 	defer stop()
-	res := runEngineOpt(spliceGrpcOpts(shot.GrpcPool(addr, atoi(m["to"], 0), reqs, 1), m), optsOf(m), 40*time.Second)
+	conf := shot.GrpcPool(addr, atoi(m["to"], 0), reqs, 1)
+	if strings.Contains(m["reqs"], ",bad,") {
+		conf = r3UndecodableLines(conf)
+	}
+	res := runEngineOpt(spliceGrpcOpts(conf, m), optsOf(m), 40*time.Second)
 	return fmtSamples(res, false)
 }
 
@@ -673,6 +681,10 @@ func runGrpcDirect(m map[string]string) string {
 		am.Payload = map[string]any{"name": make(chan int)}
 	case "ok":
 		am.Payload = map[string]any{"name": "x"}
+	case "invalid":
+		// what the grpc/json provider delivers for a line it cannot decode (continueonerror): never to be sent
+		am.Payload = map[string]any{"name": "x"}
+		am.Invalidate()
 	default:
 		panic("bad kind")
 	}
@@ -1012,6 +1024,19 @@ func gen(r *rand.Rand, tier string) []string {
 				extra = strings.TrimSpace(extra + " " + randDims(r, true))
 			}
 			out = append(out, httpCase(gt[0], gt[1], true, 1+rep%3, rep%2 == 1, extra, reqs))
+			// round 3: failure kinds over TLS and over HTTP/2 (aborted stream before / in the middle of the answer, body shorter
+			// than declared), between plain answers
+			var fr []string
+			for _, sc := range []string{"actclose", "s200.bx3", "s200.bx40.actmidclose", "s503.bx10.c100", "s404.bx2", "actreset", "s200.bx1"} {
+				fr = append(fr, httpReqTok(tagPool[r.Intn(len(tagPool))], "/tf/"+randSeg(r), "", sc))
+			}
+			for i := range fr {
+				// the path field: recompute (randSeg is part of the uri)
+				f := strings.Split(fr[i], ",")
+				f[2] = f[1]
+				fr[i] = strings.Join(f, ",")
+			}
+			out = append(out, httpCase(gt[0], gt[1], rep%2 == 0, 1+rep%2, false, extra, fr))
 		}
 		uri, path := randURI(r)
 		if !strings.HasPrefix(uri, "/") {
@@ -1156,10 +1181,7 @@ func gen(r *rand.Rand, tier string) []string {
 			switch r.Intn(10) {
 			case 0:
 				if h2 {
-					script = []string{"actclose", "s200.bx40.actmidclose"}[r.Intn(2)]
-					if script != "actclose" {
-						script = "s200.bx3" // a truncated HTTP/2 body is a stream error whose shape differs; keep to plain closes
-					}
+					script = []string{"actclose", "s200.bx40.actmidclose", "s503.bx10.c100"}[r.Intn(3)] // aborted stream, truncated body
 				} else {
 					script = failScripts[r.Intn(8)]
 				}
@@ -1204,6 +1226,9 @@ func gen(r *rand.Rand, tier string) []string {
 			reqs = append(reqs, fmt.Sprintf("oor,code,%s", c))
 		}
 		reqs = append(reqs, "nm,nomethod,0", ",badpayload,0", "bp,badpayload,0", ",nomethod,0")
+		if rep%2 == 1 {
+			reqs = append(reqs, ",bad,0", "ok,ok,0", ",bad,0") // undecodable lines between good ones
+		}
 		opts := ""
 		if rep > 0 {
 			opts = []string{" alog=all", " alog=warning", " alog=error", " shc=2", " dbg=1", " alog=all shc=1 dbg=1"}[(rep-1)%6]
@@ -1211,7 +1236,8 @@ func gen(r *rand.Rand, tier string) []string {
 		out = append(out, "k=grpc"+opts+" reqs="+strings.Join(reqs, ";"))
 	}
 	out = append(out, "k=grpc to=700 reqs=hg,hang,0")
-	out = append(out, "k=grpcdirect kind=marshal tag="+hx("m"), "k=grpcdirect kind=ok tag="+hx(""))
+	out = append(out, "k=grpcdirect kind=marshal tag="+hx("m"), "k=grpcdirect kind=ok tag="+hx(""), "k=grpcdirect kind=invalid tag="+hx("inv"),
+		"k=grpc reqs=a,ok,0;,bad,0;b,code,5;,bad,0;c,ok,0", "k=grpc agg=phout reqs=a,ok,0;,bad,0;b,code,5;,bad,0;c,ok,0;,nomethod,0;,bad,0")
 	if thorough {
 		// every status code 0..300 and some far ones, one by one
 		var reqs []string
@@ -1480,6 +1506,10 @@ func main() {
 			"x option dimensions that must not matter (answlog filters, httptrace, debug logging, shared client); gRPC codes 0-16 (thorough 0-300) and out-of-range; " +
 			"auto-tag settings exhaustively x every path over {/,a} up to length 4 (thorough 7) plus random URI shapes; 2-32 concurrently SHOOTING instances " +
 			"(samples attributed by unique tags) and 8-128 concurrently acquiring ones on every http provider, streaming and preloaded; " +
-			"getErrno on every error chain of depth <= 2 (thorough 5) and random deeper ones; a case is non-trivial when at least one sample was expected",
+			"getErrno on every error chain of depth <= 2 (thorough 5) and random deeper ones; round 3: targets answering 3xx with Location headers of every shape " +
+			"(absent, empty, relative, absolute, to another host, to a dead host, unparsable in four ways, looping) and chains of redirects up to and beyond the " +
+			"client's limit, redirect off/on, for the http / connect / http2 / TLS http / scenario guns; failure kinds over TLS and HTTP/2; scenario steps with pauses; " +
+			"the run's context cancelled while the gun is inside the pause of a chosen step (the target logs the steps it saw); " +
+			"a case is non-trivial when at least one sample was expected",
 	})
 }
